@@ -190,6 +190,7 @@ func readCurrentRegex(filePath string, ruleId string, chainOffset uint8) string 
 
 	// The ID must not be part of a longer ID and must not be mentioned in a comment
 	idRegex := regexp.MustCompile(fmt.Sprintf(`^[^#]*\bid:%s\b`, ruleId))
+	anyIdRegex := regexp.MustCompile(`^[^#]*\bid:\d+`)
 	index := 0
 	var line []byte
 	foundRule := false
@@ -204,6 +205,11 @@ func readCurrentRegex(filePath string, ruleId string, chainOffset uint8) string 
 			continue
 		}
 		if foundRule && regex.SecRuleRegex.Match(line) {
+			// Chained rules don't have an ID. A SecRule line followed by an id action
+			// starts the next rule, which means the chain has fewer links than requested.
+			if index+1 < len(lines) && anyIdRegex.Match(lines[index+1]) {
+				break
+			}
 			chainCount++
 		}
 		if foundRule && chainCount == chainOffset {
